@@ -980,7 +980,7 @@ class Engine:
                     # the integer model may fix auxiliary variables (fresh quotients, enumerated members) to values the
                     # exact encoding determines otherwise: ask the exact encoding without the pins before giving up
                     try:
-                        bm = self.bv_solve(*bvc)
+                        bm = self.bv_solve(*bvc, timeout_ms=10000)
                     except Inconclusive as ex:
                         last = ex
                         continue
